@@ -153,12 +153,16 @@ func (y *c04Sys) runTree(descs []c04Desc) (c04Result, *engine.Violation) {
 		amt, _ := math.NewIntFromString(d.Amount)
 		l2d := ref.L2Denom(1, d.Denom)
 		switch d.Kind {
-		case "refund", "refund-upper-sender":
+		case "refund", "refund-upper-sender", "refund-blank-recipient":
 			sender := alice.String()
 			if d.Kind == "refund-upper-sender" {
 				sender = strings.ToUpper(sender) // the same account, spelled in upper case: the refund goes back to this string
 			}
-			res, accepted := relayFrom(sender, "garbage-recipient", sdk.NewCoin(d.Denom, amt), d.Denom)
+			badTo := "garbage-recipient"
+			if d.Kind == "refund-blank-recipient" {
+				badTo = " \t" // not empty, so both chains take it; the refund names it as its sender
+			}
+			res, accepted := relayFrom(sender, badTo, sdk.NewCoin(d.Denom, amt), d.Denom)
 			if !accepted {
 				r.refusedAtEntry++
 				continue
@@ -305,7 +309,7 @@ func (y *c04Sys) runTree(descs []c04Desc) (c04Result, *engine.Violation) {
 }
 
 func kindOf(from string) string {
-	if from == "garbage-recipient" || from == "" {
+	if from == "garbage-recipient" || strings.TrimSpace(from) == "" {
 		return "refund"
 	}
 	return "user"
@@ -325,7 +329,7 @@ func c04Run(rc *engine.RunCtx) *engine.Result {
 			}
 			full = append(full, c04Desc{"refund", a, d, ""})
 		}
-		full = append(full, c04Desc{"refund-upper-sender", a, "uinit", ""})
+		full = append(full, c04Desc{"refund-upper-sender", a, "uinit", ""}, c04Desc{"refund-blank-recipient", a, "uinit", ""})
 	}
 	for _, a := range c04Amounts {
 		full = append(full, c04Desc{"executor-direct", a, "uinit", ""}, c04Desc{"executor-direct-empty-recipient", a, "uinit", ""})
@@ -344,6 +348,7 @@ func c04Run(rc *engine.RunCtx) *engine.Result {
 	small = append(small, c04Desc{"hook", "1", "uinit", "lower"})
 	small = append(small, c04Desc{"user", "1", "uinit", "module"})
 	small = append(small, c04Desc{"refund-upper-sender", "1", "uinit", ""})
+	small = append(small, c04Desc{"refund-blank-recipient", "1", "uinit", ""})
 	small = append(small, c04Desc{"executor-direct", "1", "uinit", ""})
 	var trees [][]c04Desc
 	for _, d := range full {
